@@ -77,10 +77,17 @@ var template = []string{
 	"2 DATE 1 Mar 1826",
 	"1 DEAT Y",
 	"1 FAMC @{ptr-fam}@",
+	"0 @{ptr-nameless}@ INDI", // a person without any NAME: components fall back to other data
+	"1 SEX M",
+	"1 BIRT",
+	"2 DATE 1 Mar 1828",
+	"1 DEAT Y",
+	"1 FAMC @{ptr-fam}@",
 	"0 @{ptr-fam}@ FAM",
 	"1 HUSB @{ptr-indi}@",
 	"1 WIFE @I2@",
 	"1 CHIL @I3@",
+	"1 CHIL @{ptr-nameless}@",
 	"1 MARR {marr-value}",
 	"2 DATE {marr-date}",
 	"2 PLAC {marr-plac}",
@@ -97,7 +104,7 @@ var template = []string{
 }
 
 var defaults = map[string]string{
-	"ptr-indi": "I1", "ptr-fam": "F1", "ptr-sour": "S1", "given": "Taint", "surname": "Target", "givn": "Taint", "surn": "Target", "npfx": "Dr", "nsfx": "Jr", "spfx": "van",
+	"ptr-indi": "I1", "ptr-fam": "F1", "ptr-sour": "S1", "ptr-nameless": "I4", "given": "Taint", "surname": "Target", "givn": "Taint", "surn": "Target", "npfx": "Dr", "nsfx": "Jr", "spfx": "van",
 	"name-titl": "Sir", "nick": "Tee", "name-type": "birth", "alt-given": "Other", "alt-surname": "Name", "alt-type": "married", "sex": "M", "birt-value": "", "birt-date": "1 Jan 1800",
 	"birt-plac": "Oldtown, England", "plac-form": "City, Country", "lati": "N51", "long": "W1", "sour-page": "12", "birt-note": "a note", "deat-date": "1 Jan 1870", "deat-plac": "Newtown, England",
 	"even-value": "Graduation", "even-type": "school", "even-date": "1820", "resi-value": "", "resi-date": "1830", "resi-plac": "Midtown, England", "occu": "Farrier", "educ": "School", "note": "note",
@@ -129,7 +136,11 @@ var positions = func() []string {
 // tokenSuffix is appended to every taint token of a case ("" or a literal &nbsp; that the Text component treats specially).
 var tokenSuffix = ""
 
-func token(i int) string { return fmt.Sprintf("T%dx<>\"'&y", i) + tokenSuffix }
+// tokenLead is put in front of every taint token of a case ("" or one special character: a value
+// whose first character already needs escaping).
+var tokenLead = ""
+
+func token(i int) string  { return tokenLead + fmt.Sprintf("T%dx<>\"'&y", i) + tokenSuffix }
 func prefix(i int) string { return fmt.Sprintf("T%dx", i) }
 
 func posIndex(name string) int {
@@ -304,6 +315,7 @@ type kase struct {
 	Tainted []string `json:"tainted"` // position names; ["*"] = all
 	Surface string   `json:"surface"` // publish-show | publish-hide | publish-placeholder | diff-<show>-<order> | query-<n> | warnings
 	Suffix  string   `json:"suffix,omitempty"`
+	Lead    string   `json:"lead,omitempty"`
 }
 
 func taintSet(names []string) map[string]bool {
@@ -436,6 +448,7 @@ func pageKind(surface, name string) string {
 
 func judge(k kase) (fs []finding, pages int, taintSeen bool) {
 	tokenSuffix = k.Suffix
+	tokenLead = k.Lead
 	ps, _ := render(k)
 	tainted := taintSet(k.Tainted)
 	for _, p := range ps {
@@ -478,6 +491,12 @@ func cases() []kase {
 			k := out[i]
 			k.Suffix = "&nbsp;z"
 			out = append(out, k)
+			// ... and with a special character as the very first character of the value
+			for _, lead := range []string{"<", "\"", "&"} {
+				k := out[i]
+				k.Lead = lead
+				out = append(out, k)
+			}
 		}
 	}
 	return out
